@@ -393,7 +393,7 @@ class HashRule(ABC):
             rule = MementoFunctionHashRule(
                 parent_symbol=parent_symbol,
                 symbol=symbol,
-                resolver=lambda: memento_fn_resolver,
+                resolver=memento_fn_resolver,
                 obj=memento_fn,
                 first_level=first_level,
             )
@@ -709,8 +709,15 @@ class MementoFunctionHashRule(HashRule):
         # different mechanism (the global counter), but it is possible that a symbol
         # pointing to a memento function is now pointing to something else, or even undefined
         # so detect if that happened, else return `False`.
+        # The symbol may also point to a *different* memento function than the one this rule
+        # was computed for: the name was re-bound, or the rule was collected while the function
+        # was being redefined (the decorator runs before the name is bound to the new function).
         new_fn = self.resolver()
-        return not isinstance(new_fn, MementoFunctionType)
+        while not isinstance(new_fn, MementoFunctionType) and hasattr(
+            new_fn, "__wrapped__"
+        ):
+            new_fn = new_fn.__wrapped__
+        return new_fn is not self.memento_fn
 
     def __repr__(self):
         return f"MementoFunctionHashRule(key={repr(self.key)})"
